@@ -1,6 +1,7 @@
 """C07 — TZID events occur at the stated local wall-clock time (narrow structural clauses only)."""
 from ..facts import walk, strip, strip_casts, lv, show, writes, calls, int_value
 from ..q import call_sites, site_before, const_eval, Site
+from ..flow import cond_atoms
 from ..absw import AbsWalk, eval_in
 from ..snapshot import AnalysisBroken
 from . import c08
@@ -18,18 +19,32 @@ EXPLANATION = (
     "read off DTSTART before the UTC conversion strips it, the proto offset is then looked up for the UTC instant in that zone. R07.6 "
     "per-occurrence correction: an occurrence is shifted by (proto offset - its own offset), its own offset looked up for that "
     "occurrence. R07.7 the open-addressed zone name table is written (echs_tzob) and read (echs_zone) along the same "
-    "probe sequence: subscript expressions, stepping and probe counts are compared with the locals named by their definitions. R08.2/R08.4 (shared with C08): the epoch tables of tzob.c agree with the calendar, Jan/Feb carry the year.")
-NOT_DECIDED = ("the offset lookup in the zone data (__find_trno, __find_zrng, the range cache), the local->UTC fixed point, behaviour at "
-               "and across transitions, all values: the behaviour itself ranges over zoneinfo data x instants and is not decided")
+    "probe sequence: subscript expressions, stepping and probe counts are compared with the locals named by their definitions. R07.8 the bisection over the transition table returns only from a half-open cell [trans(i), trans(i+1)); "
+    "the tests in front of the loop must not admit the open end as closed (a stamp equal to the last transition would lie in no cell: "
+    "no exit, no progress). R07.9 the offset lookup itself (__offs -> __find_zrng -> __find_trno and the accessors, with the per-zone "
+    "range cache) touches time stamps only through comparisons and copies, so it is decided over an ordinal model: zones with 0..6 transitions, the "
+    "time on every position before/on/between the transitions and either side of 0, from every cache state any sequence of lookups can reach; each "
+    "lookup must return, and return the offset of the last transition at or before the time. R07.10 no function-local static in the value readers "
+    "(snarf_*) or the zone code carries state from one value to the next. R07.11 every carrier of an offset between the zone data and the "
+    "occurrence correction (found by following plain copies, returns and members) is signed and at least 18 bits wide. R07.2 second clause: on a "
+    "cache hit the arrays are walked as maps from slot to entry token; what is returned must be the matched entry's zone after the shuffle. "
+    "R08.2/R08.4 (shared with C08): the epoch tables of tzob.c agree with the calendar, Jan/Feb carry the year.")
+NOT_DECIDED = ("the zone data itself and its reader (__read_zif, byte order, 64-bit block), which offset the data assigns before a zone's first "
+               "transition, convergence of the local->UTC fixed point at gaps and overlaps, that rules are expanded on the UTC time line of DTSTART, "
+               "all values: the behaviour itself ranges over zoneinfo data x instants and is not decided")
 TRUSTED = ["clang 14 parser/CFG builder", "echse-facts extractor", "python rule engines in /verif/sa"]
 LEVEL_TEXT = ("Static verdict on narrow necessary clauses of C07 only: the zone handle written onto an instant reads back as the same "
               "zone for every handle that can be handed out; the zone cache's parallel arrays are written together; direction and sign "
               "pairing of the UTC<->local conversions and of the per-occurrence offset correction; order of zone read / UTC conversion / "
-              "offset lookup at stream set-up; epoch tables. The offset lookup in the zone data, the fixed-point iteration and every "
-              "value at or across a transition are NOT decided.")
+              "offset lookup at stream set-up; epoch tables; the offset lookup with its range cache over an ordinal model of a zone "
+              "(every order of the time against 0..6 transitions, every reachable cache state); widths of the offset carriers; no carried state in the "
+              "value readers. The zone data and its reader, the offset before a zone's first transition, the fixed-point iteration at gaps and "
+              "overlaps and all concrete values are NOT decided.")
 LEVEL_NOTE = "Trusted: clang 14 front end/CFG, extractor, rule engines. Most of C07 (zoneinfo data x instants) is out of this family's reach."
 TECHNIQUE = ("static analysis: value-fixed abstract walks of the handle codec over its whole index domain, co-written parallel arrays "
-             "(control-equivalent regions), sign/direction pairing by constant evaluation of the difference expressions, dominance order of set-up calls")
+             "(control-equivalent regions) and a token walk of the cache-hit path, sign/direction pairing by constant evaluation of the difference "
+             "expressions, dominance order of set-up calls, order-type (ordinal) evaluation of the extracted lookup functions over all reachable cache "
+             "states, width/signedness flow of the offset carriers, carried-state (memo key) analysis")
 
 
 def _pure_call_eval(prog, fn, file, depth=0):
@@ -237,6 +252,137 @@ def r07_2(prog, rep, rid="R07.2"):
                          "handle with another zone's data — every conversion for that handle uses the wrong zone's offsets" % (a, ix, other, ix, ix))
     if n < 6:
         rep.broken_("rule=%s expected >=6 writes to the parallel arrays of the zone cache, found %d" % (rid, n))
+
+
+
+def r07_2b(prog, rep, rid="R07.2"):
+    """A hit in the zone cache moves the entry one slot up when it has been used more often than its neighbour.  What is returned
+    must be the zone of the entry whose handle matched — wherever the shuffle has put it by the time it is read.  Decided by walking
+    the hit path with the two arrays as maps from slot to *entry token*: element copies move tokens, temporaries hold tokens, a
+    pointer into an array is a slot; the value returned must be the zone token of the matched entry."""
+    from ..flow import edge_dominates
+    f, K, fld, V = _mfu_arrays(prog)
+    cfg = f.cfg
+    zpars = [p_["n"] for p_ in f.params if "tzob" in (p_.get("t") or "")]
+    hits = []       # (block, succ index, index variable, offset)
+    for b in cfg.blocks:
+        c = cfg.cond(b)
+        if c is None:
+            continue
+        for si in (0, 1):
+            for a in cond_atoms(c, si == 0):
+                if len(a) == 5 and a[0] == "==":
+                    for x_, o_ in ((a[3], a[4]), (a[4], a[3])):
+                        x_, o_ = strip_casts(x_) if isinstance(x_, dict) else {}, strip_casts(o_) if isinstance(o_, dict) else {}
+                        if x_.get("k") == "mem" and x_.get("f") == fld and o_.get("k") == "ref" and o_.get("n") in zpars:
+                            base = strip_casts(x_["b"])
+                            if base.get("k") == "idx" and strip_casts(base["b"]).get("n") == K:
+                                ix = strip_casts(base["i"])
+                                if ix.get("k") == "ref":
+                                    hits.append((b, si, ix["n"], 0))
+    # only matches inside the scan (a loop); the re-check behind the loop copies the zone into a local and falls through to the common return
+    loops = cfg.natural_loops()
+    inloop = {b_ for blks in loops.values() for b_ in blks}
+    n = 0
+    for hb, si, ivar, off in hits:
+        succ = cfg.blocks[hb].succs[si]
+        if succ is None or si in cfg.blocks[hb].dead:
+            continue
+        for i0 in (0, 5):
+            def tok(arr, store, slot):
+                return dict(store.get("$" + arr, ())).get(slot, ("e", slot))
+
+            def slot_of(store, e):
+                e = strip_casts(cfg.resolve(e))
+                if e.get("k") == "idx" and strip_casts(e["b"]).get("n") in (K, V):
+                    sl = eval_in(store, e["i"], f, None)
+                    return strip_casts(e["b"])["n"], sl
+                return None, None
+
+            def value_of(store, e):
+                """token (for an element of one of the arrays), pointer ('p', array, slot), or None"""
+                e = strip_casts(cfg.resolve(e))
+                if e.get("k") == "mem" and e.get("f") == fld:
+                    return None
+                arr, sl = slot_of(store, e)
+                if arr is not None:
+                    return None if sl is None else tok(arr, store, sl)
+                if e.get("k") == "ref" and e.get("dk") == "local":
+                    return dict(store.get("$tmp", ())).get(e["n"])
+                if e.get("k") == "un" and e.get("op") == "*":
+                    pv = value_of(store, e["e"])
+                    if isinstance(pv, tuple) and pv and pv[0] == "p":
+                        return tok(pv[1], store, pv[2])
+                    return None
+                if e.get("k") == "un" and e.get("op") == "&":
+                    arr, sl = slot_of(store, e["e"])
+                    return ("p", arr, sl) if arr is not None and sl is not None else None
+                if e.get("k") == "bin" and e["op"] in ("+", "-"):
+                    l_, r_ = strip_casts(e["l"]), e["r"]
+                    if l_.get("k") == "ref" and l_.get("n") in (K, V):
+                        sl = eval_in(store, r_, f, None)
+                        if sl is not None:
+                            return ("p", l_["n"], sl if e["op"] == "+" else -sl)
+                return None
+            results = []
+
+            def effect(b, i, x, store):
+                upd = {}
+                if not isinstance(x, dict):
+                    return upd
+                arrs = {K: dict(store.get("$" + K, ())), V: dict(store.get("$" + V, ()))}
+                tmps = dict(store.get("$tmp", ()))
+                touched = False
+                for l, kind, nn in writes(x):
+                    tl = strip_casts(l)
+                    rhs = nn.get("init") if kind == "decl" else (nn.get("r") if nn.get("k") == "bin" and nn["op"] == "=" else None)
+                    if tl.get("k") == "mem" and tl.get("f") != fld:
+                        continue        # the use counter and the like
+                    if tl.get("k") == "mem":
+                        tl = strip_casts(tl["b"])
+                        rhs = None      # a bare key store: a new entry
+                    arr, sl = slot_of(store, tl)
+                    if arr is not None:
+                        if sl is None:
+                            raise AnalysisBroken("__tzob_zif: slot of a write to %s unknown on the hit path" % arr)
+                        v = value_of(store, rhs) if rhs is not None else None
+                        arrs[arr][sl] = v if (isinstance(v, tuple) and v[0] == "e") else ("new", b, i)
+                        touched = True
+                    elif tl.get("k") == "ref" and tl.get("dk") == "local" and rhs is not None and kind in ("decl", "assign"):
+                        v = value_of(store, rhs)
+                        if v is not None:
+                            tmps[tl["n"]] = v
+                            touched = True
+                        elif tl["n"] in tmps:
+                            del tmps[tl["n"]]
+                            touched = True
+                if touched:
+                    upd["$" + K] = tuple(sorted(arrs[K].items()))
+                    upd["$" + V] = tuple(sorted(arrs[V].items()))
+                    upd["$tmp"] = tuple(sorted(tmps.items()))
+                if x.get("k") == "ret" and x.get("e") is not None:
+                    results.append((cfg.blocks[b].elems[i].get("line"), value_of(store, x["e"]), show(cfg.resolve(x["e"]))[:40]))
+                return upd
+            tracked = {l_["n"] for l_ in f.locals if l_.get("w")} | {ivar}
+            w = AbsWalk(f, tracked, init={ivar: i0}, effect=effect, max_states=20000)
+            # pointers and tokens taken in front of the match belong to the same path: start at the head of the loop iteration
+            w.run(start_block=succ)
+            n += 1
+            want = ("e", i0 + off)
+            key = "__tzob_zif/hit-returns-the-matched-zone(slot %s)" % ("0" if i0 == 0 else "n>0")
+            bad = [(ln, v, txt) for ln, v, txt in results if v != want]
+            if not results:
+                raise AnalysisBroken("__tzob_zif: no return reached from the cache hit")
+            if bad:
+                ln, v, txt = bad[0]
+                rep.fail(rid, key, f.loc(ln), "after a hit on slot i the function returns `%s`, which by then is %s — not the zone of the entry whose handle matched: "
+                         "the caller converts with another zone's offsets" % (
+                             txt, ("the zone of the entry that was in slot i%+d before the shuffle" % (v[1] - i0)) if isinstance(v, tuple) and v[0] == "e"
+                             else "something this analysis cannot follow"))
+            else:
+                rep.ok(rid, key, f.loc(), "every return on the hit path hands out the matched entry's zone (%d returns)" % len(results))
+    if n < 2:
+        rep.broken_("rule=%s expected the cache-hit path of __tzob_zif, found %d walks" % (rid, n))
 
 
 def r07_3(prog, rep, rid="R07.3"):
@@ -609,11 +755,452 @@ def r07_7(prog, rep, rid="R07.7"):
         rep.ok(rid, key, r.loc(), "probe loops bounded alike (%s)" % "; ".join(bw))
 
 
+def r07_8(prog, rep, rid="R07.8"):
+    """The transition search bisects [min, max] into cells [trans(i), trans(i+1)) and returns the cell that holds t; it has no other
+    exit.  The tests in front of the loop must leave exactly the union of the cells: a bound that the cells treat as open must not be
+    admitted as closed — a t on that boundary lies in no cell and the loop never ends."""
+    from ..flow import edge_dominates
+    f = prog.fn("__find_trno", "tzraw.c")
+    cfg = f.cfg
+    loops = cfg.natural_loops()
+    if not loops:
+        raise AnalysisBroken("__find_trno: no loop found")
+    # locals that hold table entries: assigned from a call of one accessor
+    acc = {}
+    for b, i, x, line in cfg.all_elems():
+        if isinstance(x, dict):
+            for l, kind, nn in writes(x):
+                rhs = nn.get("init") if kind == "decl" else (nn.get("r") if nn.get("k") == "bin" and nn["op"] == "=" else None)
+                r_ = strip_casts(cfg.resolve(rhs)) if rhs is not None else {}
+                if r_.get("k") == "call" and r_.get("fn"):
+                    acc[lv(l)] = r_["fn"]
+    n = 0
+    for h, blks in loops.items():
+        # the cell test: a return inside the loop under  lo <= K  and  K < hi  with lo, hi table entries
+        cell = None
+        exits = {s_ for g in blks for s_ in cfg.blocks[g].live_succs() if s_ not in blks}
+        for b in sorted(exits | set(blks)):
+            blk = cfg.blocks[b]
+            if not any(isinstance(e["x"], dict) and e["x"].get("k") == "ret" for e in blk.elems):
+                continue
+            atoms = []
+            for g in blks:
+                c = cfg.cond(g)
+                if c is None:
+                    continue
+                for si, s_ in enumerate(cfg.blocks[g].succs):
+                    if s_ is not None and si not in cfg.blocks[g].dead and edge_dominates(cfg, g, si, b):
+                        atoms += [a for a in cond_atoms(c, si == 0) if len(a) == 5 and a[0] in ("<", "<=")]
+            ups = [(a[0], a[1], a[2]) for a in atoms if a[2] in acc and a[1] not in acc]
+            los = [(a[0], a[1], a[2]) for a in atoms if a[1] in acc and a[2] not in acc]
+            if ups and los and ups[0][1] == los[0][2] and acc[ups[0][2]] == acc[los[0][1]]:
+                cell = (ups[0][1], acc[ups[0][2]], los[0][0], ups[0][0], b)
+        if cell is None:
+            continue
+        K, A, lo_op, up_op, rb = cell
+        # what the tests in front of the loop leave
+        entry = []
+        for g in cfg.blocks:
+            if g in blks:
+                continue
+            c = cfg.cond(g)
+            if c is None:
+                continue
+            for si, s_ in enumerate(cfg.blocks[g].succs):
+                if s_ is not None and si not in cfg.blocks[g].dead and edge_dominates(cfg, g, si, h):
+                    entry += [a for a in cond_atoms(c, si == 0) if len(a) == 5 and a[0] in ("<", "<=")]
+        e_up = [a for a in entry if a[1] == K and isinstance(a[4], dict) and strip_casts(a[4]).get("k") == "call" and strip_casts(a[4]).get("fn") == A]
+        e_lo = [a for a in entry if a[2] == K and isinstance(a[3], dict) and strip_casts(a[3]).get("k") == "call" and strip_casts(a[3]).get("fn") == A]
+        if not e_up or not e_lo:
+            raise AnalysisBroken("__find_trno: the tests that bound %s before the loop were not found (%d upper, %d lower)" % (K, len(e_up), len(e_lo)))
+        for side, cell_op, ent in (("upper", up_op, e_up), ("lower", lo_op, e_lo)):
+            n += 1
+            key = "__find_trno/%s-bound-admitted-as-the-cells-have-it" % side
+            closed_entry = all(a[0] == "<=" for a in ent)
+            if cell_op == "<" and closed_entry:
+                rep.fail(rid, key, f.loc(cfg.blocks[rb].elems[0].get("line")), "the loop returns only from a cell  lo <= %s < hi  (open at the %s end), but the tests in front of it "
+                         "let  %s == %s(..)  through (`%s`): a time stamp that equals that transition lies in no cell, no branch shrinks the interval any "
+                         "further and the search never ends — a TZID'd time at exactly the zone's last transition hangs the process" % (
+                             K, side, K, A, " ".join(str(v) for v in ent[0][:3])))
+            else:
+                rep.ok(rid, key, f.loc(), "%s end: cells are %s, the entry tests leave it %s" % (
+                    side, "open" if cell_op == "<" else "closed", "closed" if closed_entry else "open"))
+    if n < 2:
+        rep.broken_("rule=%s expected the bisection loop of __find_trno with its two entry tests, found %d instances" % (rid, n))
+
+
+
+# ---------------------------------------------------------------------------
+# R07.9: the offset lookup over an ordinal model of a zone
+
+_INT_MIN, _INT_MAX = -2 ** 31, 2 ** 31 - 1
+
+
+class _NoResult(Exception):
+    pass
+
+
+def _zone_mem(NT):
+    """A zone with NT transitions at 1000, 2000, ...; transition k switches to a type of its own with offset 100 + k.  Keys are
+    relative to the zone pointer.  Only the *order* of a looked-up time against the transitions matters to the code under analysis
+    (it touches these values through comparisons and copies only), so the positions between and on the transitions cover every case."""
+    mem = {"hdr->tzh_timecnt": NT, "cz": 0}
+    for k in range(NT):
+        mem["trs[%d]" % k] = 1000 * (k + 1)
+        mem["tys[%d]" % k] = k
+    for k in range(max(NT, 1)):
+        mem["tda[%d].offs" % k] = 100 + k
+    return mem
+
+
+def _lookup_engine(prog, NT):
+    mem = _zone_mem(NT)
+    file = "tzraw.c"
+    cache = {}
+
+    def initstore(g, args):
+        zp = g.params[0]["n"]
+        st = {zp + "->" + k: v for k, v in mem.items()}
+        for p_, v in zip(g.params[1:], args):
+            st[p_["n"]] = v
+        return zp, st
+
+    def make_ce(g):
+        def ce(c, store):
+            name = c.get("fn")
+            if name == "__builtin_expect" or not name:
+                return None
+            if name == "zif_troffs":
+                n = eval_in(store, c["a"][1], g, ce)
+                if n is None:
+                    return None
+                idx = walk_int("zif_type", (n,))
+                return mem.get("tda[%d].offs" % idx)
+            if name in ("zif_ntrans", "zif_trans", "zif_type", "__find_trno", "zif_find_trans") and prog.has_fn(name, file):
+                args = [eval_in(store, a, g, ce) for a in c["a"][1:]]
+                if any(a is None for a in args):
+                    return None
+                return walk_int(name, tuple(args))
+            return None
+        return ce
+
+    def walk_int(name, args):
+        key = (name, args)
+        if key in cache:
+            if cache[key] is None:
+                raise _NoResult("%s%s" % (name, args))
+            return cache[key]
+        g = prog.fn(name, file)
+        zp, st = initstore(g, args)
+        ce = make_ce(g)
+        rets = []
+
+        def effect(b, i, x, store):
+            if isinstance(x, dict) and x.get("k") == "ret" and x.get("e") is not None:
+                rets.append(eval_in(store, g.cfg.resolve(x["e"]), g, ce))
+            return None
+        tracked = {l_["n"] for l_ in g.locals} | {p_["n"] for p_ in g.params[1:]}
+        w = AbsWalk(g, tracked, init=st, effect=effect, call_eval=ce, max_states=4000)
+        w.run()
+        vals = set(rets)
+        if len(vals) != 1 or None in vals:
+            cache[key] = None
+            raise _NoResult("%s(%s) with %d transitions: %s" % (name, ", ".join(str(a) for a in args), NT,
+                                                                  "never returns" if not rets else "no single result %s" % sorted(vals, key=str)))
+        cache[key] = rets[0]
+        return rets[0]
+
+    FLD = ("prev", "next", "offs", "trno")
+
+    def walk_zrng(t, mn, mx):
+        g = prog.fn("__find_zrng", file)
+        zp, st = initstore(g, (t, mn, mx))
+        ce = make_ce(g)
+        res = [l_["n"] for l_ in g.locals if "zrng_s" in (l_.get("t") or "")]
+        if not res:
+            raise AnalysisBroken("__find_zrng: result record not found")
+        rv = res[0]
+        tracked = {l_["n"] for l_ in g.locals} | {p_["n"] for p_ in g.params[1:]} | {"%s.%s" % (rv, f_) for f_ in FLD}
+        w = AbsWalk(g, tracked, init=st, call_eval=ce, max_states=4000)
+        w.run()
+        outs = {tuple(s_.get("%s.%s" % (rv, f_)) for f_ in FLD) for s_ in w.exit_stores}
+        if len(outs) != 1 or None in next(iter(outs)):
+            raise _NoResult("__find_zrng(%d, %d, %d) with %d transitions: no single result %s" % (t, mn, mx, NT, sorted(outs, key=str)[:3]))
+        return dict(zip(FLD, next(iter(outs))))
+
+    def offs(cst, t):
+        """(offset returned, cache afterwards) of __offs() for the cache state cst = (prev, next, offs, trno)."""
+        g = prog.fn("__offs", file)
+        cfg = g.cfg
+        zp, st = initstore(g, (t,))
+        cpath = None
+        for b, i, x, line in cfg.all_elems():
+            for n_ in walk(x) if isinstance(x, dict) else ():
+                if n_.get("k") == "mem" and n_.get("f") in FLD:
+                    bb = strip_casts(n_["b"])
+                    if bb.get("k") == "mem" and "zrng_s" in (bb.get("t") or ""):
+                        cpath = lv(bb)
+        if cpath is None:
+            raise AnalysisBroken("__offs: the range cache was not found")
+        for f_, v in zip(FLD, cst):
+            st["%s.%s" % (cpath, f_)] = v
+        ce = make_ce(g)
+
+        def struct_of(e, store):
+            """fields of a zrng_s-valued expression"""
+            e = strip_casts(cfg.resolve(e))
+            if e.get("k") == "call" and e.get("fn") in ("__find_zrng", "zif_find_zrng"):
+                a = [eval_in(store, a_, g, ce) for a_ in e["a"][1:]]
+                if e["fn"] == "zif_find_zrng":
+                    a = [a[0], 0, walk_int("zif_ntrans", ())]
+                if any(v is None for v in a):
+                    raise _NoResult("__offs(%d): arguments of the range search unknown" % t)
+                return walk_zrng(*a)
+            if e.get("k") == "bin" and e["op"] == "=":
+                return struct_of(e["r"], store)
+            if e.get("k") in ("ref", "mem"):
+                base = lv(e)
+                d = {f_: store.get("%s.%s" % (base, f_)) for f_ in FLD}
+                if None not in d.values():
+                    return d
+                pend = dict(store.get("$pend", ()))
+                d = {f_: pend.get("%s.%s" % (base, f_)) for f_ in FLD}
+                if None not in d.values():
+                    return d
+            raise _NoResult("__offs(%d): value of `%s` unknown" % (t, show(e)[:40]))
+
+        def effect(b, i, x, store):
+            upd = {}
+            if "$pend" in store:
+                upd.update(dict(store["$pend"]))
+                upd["$pend"] = None
+            if not isinstance(x, dict):
+                return upd
+            pend = {}
+            for l, kind, nn in writes(x):
+                tl = strip_casts(l)
+                ty = tl.get("t") or (nn.get("t") if kind == "decl" else "") or ""
+                rhs = nn.get("init") if kind == "decl" else (nn.get("r") if nn.get("k") == "bin" and nn["op"] == "=" else None)
+                if "zrng_s" in ty and rhs is not None:
+                    stt = dict(store)
+                    stt.update({k_: v_ for k_, v_ in upd.items() if v_ is not None})
+                    d = struct_of(rhs, stt)
+                    for f_ in FLD:
+                        pend["%s.%s" % (lv(tl), f_)] = d[f_]
+            if pend:
+                upd["$pend"] = tuple(sorted(pend.items()))
+            if x.get("k") == "ret" and x.get("e") is not None:
+                e = strip_casts(cfg.resolve(x["e"]))
+                stt = dict(store)
+                stt.update({k_: v_ for k_, v_ in upd.items() if v_ is not None and k_ != "$pend"})
+                if e.get("k") == "mem" and e.get("f") in FLD and strip_casts(e["b"]).get("k") in ("bin", "call"):
+                    d = struct_of(e["b"], stt)
+                    upd["$ret"] = d[e["f"]]
+                    bb = strip_casts(cfg.resolve(e["b"]))
+                    if bb.get("k") == "bin" and bb["op"] == "=":
+                        for f_ in FLD:
+                            upd["%s.%s" % (lv(bb["l"]), f_)] = d[f_]
+                else:
+                    v = eval_in(stt, e, g, ce)
+                    if v is None:
+                        raise _NoResult("__offs(%d): returned value `%s` unknown" % (t, show(e)[:40]))
+                    upd["$ret"] = v
+            return upd
+        tracked = {l_["n"] for l_ in g.locals} | {p_["n"] for p_ in g.params[1:]} | {"%s.%s" % (cpath, f_) for f_ in FLD}
+        for l_ in g.locals:
+            if "zrng_s" in (l_.get("t") or ""):
+                tracked |= {"%s.%s" % (l_["n"], f_) for f_ in FLD}
+        w = AbsWalk(g, tracked, init=st, effect=effect, call_eval=ce, max_states=4000)
+        w.run()
+        outs = set()
+        for s_ in w.exit_stores:
+            s_ = dict(s_)
+            s_.update(dict(s_.get("$pend", ())))
+            outs.add((s_.get("$ret"), tuple(s_.get("%s.%s" % (cpath, f_)) for f_ in FLD)))
+        if len(outs) != 1:
+            raise _NoResult("__offs(%d) from cache %s with %d transitions: %s" % (t, cst, NT, "never returns" if not outs else "no single result"))
+        ret, c2 = next(iter(outs))
+        if ret is None or None in c2:
+            raise _NoResult("__offs(%d) from cache %s: result or cache unknown" % (t, cst))
+        return ret, c2
+    return offs
+
+
+def r07_9(prog, rep, rid="R07.9"):
+    """The offset lookup (__offs -> __find_zrng -> __find_trno, with the per-zone range cache in between) touches time stamps only
+    through comparisons and copies.  So it is decided over an *ordinal* model: a zone with NT transitions (NT = 0..6), the looked-up
+    time on every position before, on and between the transitions (and on either side of 0, which an untouched cache makes special),
+    starting from every cache state that any sequence of such lookups can reach.  Every lookup must return the offset of the last
+    transition at or before the time (the first transition's for times before it, as the code documents) — whatever was looked up
+    before — and must return at all."""
+    f = prog.fn("__offs", "tzraw.c")
+    total = 0
+    for NT in (0, 1, 2, 3, 4, 5, 6):
+        offs = _lookup_engine(prog, NT)
+        T = [1000 * (k + 1) for k in range(NT)]
+        pos = [-500, 0, 500]
+        for k in range(NT):
+            pos += [T[k], T[k] + 500]
+
+        def oracle(t):
+            ks = [k for k in range(NT) if T[k] <= t]
+            return 100 + (ks[-1] if ks else 0)
+        fresh = (0, 0, 0, 0)
+        seen = {fresh: ()}
+        work = [fresh]
+        bad = None
+        nlook = 0
+        while work and bad is None:
+            cst = work.pop(0)
+            for t in pos:
+                nlook += 1
+                try:
+                    got, c2 = offs(cst, t)
+                except _NoResult as e:
+                    bad = ("noresult", seen[cst] + (t,), str(e))
+                    break
+                if got != oracle(t):
+                    bad = ("wrong", seen[cst] + (t,), "offset %d (that of transition #%d) instead of %d (transition #%d)" % (
+                        got, got - 100, oracle(t), oracle(t) - 100))
+                    break
+                if c2 not in seen:
+                    if len(seen) > 400:
+                        raise AnalysisBroken("__offs: more than 400 cache states reachable in the ordinal model")
+                    seen[c2] = seen[cst] + (t,)
+                    work.append(c2)
+        total += nlook
+        key = "__offs/lookup-table(%d transitions)" % NT
+
+        def where(t):
+            if not NT:
+                return "t=%d" % t
+            if t < T[0]:
+                return "before #0" + (" (t<0)" if t < 0 else "")
+            k = max(k for k in range(NT) if T[k] <= t)
+            return ("on #%d" % k) if t == T[k] else ("after #%d" % k)
+        if bad:
+            kind, seq, why = bad
+            hist = ", then ".join(where(t) for t in seq[:-1]) or "an untouched cache"
+            rep.fail(rid, key, f.loc(), "zone with %d transitions, lookups %s -> now a time %s: %s. %s" % (
+                NT, hist, where(seq[-1]), why,
+                "The lookup depends on what was looked up before it: events of one file are converted with another season's offset."
+                if kind == "wrong" and len(seq) > 1 else ("The process hangs or the result is undefined." if kind == "noresult" else "")),
+                {"transitions": NT, "sequence": list(seq), "kind": kind})
+        else:
+            rep.ok(rid, key, f.loc(), "%d reachable cache states x %d positions: every lookup returns the offset of the last transition at or before the time" % (
+                len(seen), len(pos)))
+    rep.ok(rid, "__offs/model", f.loc(), "%d lookups evaluated over the ordinal model" % total, nontrivial=False)
+
+
+
+def r07_11(prog, rep, rid="R07.11"):
+    """A UTC offset is a signed number of seconds, up to a day either way for what zone files may hold (and 14 h in practice): every
+    variable, record field and return type it travels through from the zone data to the occurrence correction must be signed and at
+    least 18 bits wide.  The carriers are found by following the value (plain copies, returns, struct members), not listed."""
+    files = ("tzraw.c", "tzraw.h", "tzob.c", "tzob.h", "evical.c")
+    NEED = 18
+    src_fns = set()
+    fields = {("ztrdtl_s", "offs")}
+    locs = {}
+    rets = {}
+
+    def fld_of(n):
+        n = strip_casts(n)
+        if n.get("k") == "mem" and n.get("rec") and n.get("f"):
+            return (n["rec"], n["f"])
+        return None
+
+    def is_src(f, x, depth=0):
+        x = strip_casts(f.cfg.resolve(x)) if isinstance(x, dict) else x
+        if not isinstance(x, dict) or depth > 6:
+            return False
+        k = x.get("k")
+        if k == "call":
+            return x.get("fn") in src_fns
+        if k == "mem":
+            if fld_of(x) in fields:
+                return True
+            return False
+        if k == "ref":
+            return (f.name, x.get("n")) in locs
+        if k == "bin" and x["op"] == "=":
+            return is_src(f, x["r"], depth + 1)
+        if k == "cond":
+            return is_src(f, x.get("T") or x["c"], depth + 1) or is_src(f, x["F"], depth + 1)
+        return False
+    # static functions nobody calls (the unused zif_spec/zif_trname conveniences) carry nothing anywhere
+    fns = [f for fl in files for f in prog.fns_in(fl) if f.cfg and not (f.raw.get("static") and not prog.callers_of(f.name))]
+    changed = True
+    rounds = 0
+    while changed and rounds < 8:
+        changed = False
+        rounds += 1
+        for f in fns:
+            for b, i, x, line in f.cfg.all_elems():
+                if not isinstance(x, dict):
+                    continue
+                if x.get("k") == "ret" and x.get("e") is not None and is_src(f, x["e"]):
+                    if f.name not in src_fns:
+                        src_fns.add(f.name)
+                        rets[f.name] = (f, line)
+                        changed = True
+                for l, kind, nn in writes(x):
+                    rhs = nn.get("init") if kind == "decl" else (nn.get("r") if nn.get("k") == "bin" and nn["op"] == "=" else None)
+                    if rhs is None or not is_src(f, rhs):
+                        continue
+                    tl = strip_casts(l)
+                    fd = fld_of(tl)
+                    if fd and fd not in fields:
+                        fields.add(fd)
+                        changed = True
+                    elif tl.get("k") == "ref" and tl.get("dk") in ("local", "param") and (f.name, tl["n"]) not in locs:
+                        locs[(f.name, tl["n"])] = (f, line)
+                        changed = True
+    n = 0
+
+    def verdict(key, loc, what, width, signed):
+        if signed and width is not None and width >= NEED:
+            rep.ok(rid, key, loc, "%s: signed, %d bits" % (what, width))
+        else:
+            rep.fail(rid, key, loc, "%s carries a zone's UTC offset in seconds but is %s%s: offsets beyond +/-%s s (Sydney +11 h = 39600, Auckland, "
+                     "Honolulu -10 h ...) wrap, the zone's times come out hours off" % (
+                         what, "unsigned" if not signed else "signed", " and only %s bits wide" % width if width is not None else "",
+                         (1 << (width - 1)) - 1 if width else "?"))
+    for rec, fl in sorted(fields):
+        r = None
+        for (nm, file_), rr in prog.records.items():
+            if nm == rec:
+                r = rr
+        if r is None:
+            continue
+        fd = [q for q in r["fields"] if q.get("n") == fl]
+        if not fd:
+            continue
+        fd = fd[0]
+        width = fd.get("bits") or (fd.get("size") or 0) * 8 or None
+        signed = "unsigned" not in (fd.get("c") or "") and (fd.get("c") or "") not in ("_Bool", "char")
+        n += 1
+        verdict("%s.%s/offset-carrier" % (rec, fl), "src/%s:%s" % (r.get("file"), fd.get("line")), "field `%s` of struct %s" % (fl, rec), width, signed)
+    for name in sorted(src_fns):
+        f, line = rets[name]
+        n += 1
+        verdict("%s()/offset-carrier" % name, f.loc(), "the return type of %s() (%s)" % (name, (f.ret or {}).get("t")), (f.ret or {}).get("w"), bool((f.ret or {}).get("s")))
+    for (fname, v), (f, line) in sorted(locs.items()):
+        d = [l_ for l_ in f.locals if l_["n"] == v] + [p_ for p_ in f.params if p_["n"] == v]
+        if not d:
+            continue
+        n += 1
+        verdict("%s/%s/offset-carrier" % (fname, v), f.loc(line), "`%s %s` in %s()" % (d[0].get("t"), v, fname), d[0].get("w"), bool(d[0].get("s")))
+    if n < 8:
+        rep.broken_("rule=%s expected >=8 carriers of the zone offset between the zone data and the occurrence correction, found %d" % (rid, n))
+
+
 def run(prog, rep, tier, snap):
     rep.rule("R07.1", "every zone handle that can be handed out reads back as its own slot", 2)
     rep.call(r07_1, prog, rep)
     rep.rule("R07.2", "handle and zone of one cache slot are written together", 6)
     rep.call(r07_2, prog, rep)
+    rep.call(r07_2b, prog, rep)
     rep.rule("R07.3", "direction and sign pairing of the UTC <-> local conversions", 4)
     rep.call(r07_3, prog, rep)
     rep.rule("R07.4", "the epoch conversion is handed untagged instants", 3)
@@ -624,6 +1211,16 @@ def run(prog, rep, tier, snap):
     rep.call(r07_6, prog, rep)
     rep.rule("R07.7", "zone names are looked up along the probe sequence they were filed under", 2)
     rep.call(r07_7, prog, rep)
+    rep.rule("R07.8", "the transition search is entered only with time stamps that lie in one of its cells", 2)
+    rep.call(r07_8, prog, rep)
+    rep.rule("R07.9", "the offset lookup is right for every order of time against transitions, from every reachable cache state", 7)
+    rep.call(r07_9, prog, rep)
+    from ..rules import state
+    rep.rule("R07.10", "the value readers (TZID attachment) and the zone code carry no state from one value to the next", 2)
+    rep.call(state.no_carried_state, prog, rep, "R07.10", "parse")
+    rep.call(state.no_carried_state, prog, rep, "R07.10", "zone")
+    rep.rule("R07.11", "every carrier of a zone offset is signed and wide enough", 8)
+    rep.call(r07_11, prog, rep)
     rep.rule("R08.2", "epoch tables and constants of the zone code agree with the calendar (shared with C08)", 15)
     rep.call(c08.r08_2, prog, rep)
     rep.rule("R08.4", "March-based table implies a year carry for months < 3 (shared with C08)", 1)
